@@ -65,7 +65,7 @@ def sort_key(k, protocol=pickle.HIGHEST_PROTOCOL):
 
 
 class Item:
-    __slots__ = ('key', 'value', 'lo', 'hi', 'tag', 'store_seq', 'access_seq', 'access_count', 'file')
+    __slots__ = ('key', 'value', 'lo', 'hi', 'tag', 'store_seq', 'access_seq', 'access_count', 'file', 'seen_live')
 
     def __init__(self, key, value, lo, hi, tag, seq, file=False):
         self.key = key
@@ -77,6 +77,7 @@ class Item:
         self.access_seq = seq
         self.access_count = 0
         self.file = file
+        self.seen_live = False
 
     def __repr__(self):
         return 'Item(%r,%r,exp=%r,tag=%r)' % (self.key, _short(self.value), self.lo, self.tag)
@@ -96,6 +97,7 @@ class CacheModel:
         self.seq = 0
         self.policy = policy
         self.protocol = protocol
+        self.both_sides = 0  # lookups of an item after its expiry that had been looked up before it
 
     # -- time ----------------------------------------------------------------------------------
     def live(self, item, t0, t1):
@@ -174,9 +176,13 @@ class CacheModel:
         """Return the live Item or None; updates statistics and policy keys like get()."""
         old = self.items.get(ident(key))
         if old is None or not self.live(old, t0, t1):
+            if old is not None and old.seen_live:
+                self.both_sides += 1
             if count and self.statistics:
                 self.misses += 1
             return None
+        if old.lo is not None:
+            old.seen_live = True
         if count:
             if self.statistics:
                 self.hits += 1
@@ -208,6 +214,56 @@ class CacheModel:
             removed.append(item)
             del self.items[i]
         raise KeyError('dictionary is empty')
+
+    # -- queues --------------------------------------------------------------------------------
+    def queue_members(self, prefix):
+        """Items inside the key range of the queue `prefix`, front to back."""
+        out = []
+        if prefix is None:
+            for it in self.items.values():
+                i = ident(it.key)
+                if i[0] == 'num' and 0 < it.key < 999999999999999:
+                    out.append(it)
+            out.sort(key=lambda it: it.key)
+        else:
+            lo = (prefix + '-000000000000000').encode('utf-8', 'surrogatepass')
+            hi = (prefix + '-999999999999999').encode('utf-8', 'surrogatepass')
+            for it in self.items.values():
+                if type(it.key) is str and lo < it.key.encode('utf-8', 'surrogatepass') < hi:
+                    out.append(it)
+            out.sort(key=lambda it: it.key.encode('utf-8', 'surrogatepass'))
+        return out
+
+    def push(self, value, prefix, side, ttl, tag, t0, t1, file=False):
+        members = self.queue_members(prefix)
+        if members:
+            edge = members[-1] if side == 'back' else members[0]
+            if prefix is None:
+                num = edge.key
+            else:
+                num = int(edge.key[edge.key.rfind('-') + 1:])
+            num = num + 1 if side == 'back' else num - 1
+        else:
+            num = 500000000000000
+        key = num if prefix is None else '{0}-{1:015d}'.format(prefix, num)
+        lo, hi = self._exp(ttl, t0, t1)
+        self.items[ident(key)] = Item(key, value, lo, hi, tag, self.tick(), file)
+        return key
+
+    def pull(self, prefix, side, t0, t1, remove=True):
+        """Return (item or None, removed expired items)."""
+        removed = []
+        while True:
+            members = self.queue_members(prefix)
+            if not members:
+                return None, removed
+            head = members[0] if side == 'front' else members[-1]
+            if self.live(head, t0, t1):
+                if remove:
+                    del self.items[ident(head.key)]
+                return head, removed
+            removed.append(head)
+            del self.items[ident(head.key)]
 
     # -- bulk ----------------------------------------------------------------------------------
     def clear(self):
